@@ -1557,6 +1557,17 @@ impl PeerConnection {
                             break;
                         }
                     }
+                    // a=setup may also be given once at session level (RFC 4145 / RFC 5763).
+                    if new_role.is_none() {
+                        for attr in &desc.session.attributes {
+                            if attr.key == "setup"
+                                && let Some(val) = &attr.value
+                            {
+                                new_role = Some(!matches!(val.as_str(), "active" | "actpass"));
+                                break;
+                            }
+                        }
+                    }
                 }
                 if let Some(r) = new_role {
                     let _ = self.inner.dtls_role.send(Some(r));
